@@ -218,6 +218,7 @@ dLUMemInit(fact_t fact, void *work, int_t lwork, int m, int n, int_t annz,
 	//nzlmax = SUPERLU_MAX(1, fill_ratio/4.) * annz;
 
 	if ( lwork == -1 ) {
+	    SUPERLU_FREE(Glu->expanders); Glu->expanders = NULL; /* not needed by a size query */
 	    return ( GluIntArray(n) * iword + TempSpace(m, panel_size)
 		    + (nzlmax+nzumax)*iword + (nzlumax+nzumax)*dword + n );
         } else {
@@ -243,8 +244,10 @@ dLUMemInit(fact_t fact, void *work, int_t lwork, int m, int n, int_t annz,
 	    xlsub  = duser_malloc((n+1) * iword, HEAD, Glu);
 	    xlusup = duser_malloc((n+1) * iword, HEAD, Glu);
 	    xusub  = duser_malloc((n+1) * iword, HEAD, Glu);
-	    if ( !xsup || !supno || !xlsub || !xlusup || !xusub )
+	    if ( !xsup || !supno || !xlsub || !xlusup || !xusub ) {
+		SUPERLU_FREE(Glu->expanders); Glu->expanders = NULL;
 		return (dmemory_usage(nzlmax, nzumax, nzlumax, n) + n);
+	    }
 	}
 
 	if ( Glu->MemModel == USER ) { /* state of the workspace before the four arrays */
@@ -279,6 +282,7 @@ dLUMemInit(fact_t fact, void *work, int_t lwork, int m, int n, int_t annz,
 		    SUPERLU_FREE(xlusup);
 		    SUPERLU_FREE(xusub);
 		}
+		SUPERLU_FREE(Glu->expanders); Glu->expanders = NULL;
 		return (dmemory_usage(nzlmax, nzumax, nzlumax, n) + n);
 	    }
 #if ( PRNTlevel >= 1)
@@ -306,6 +310,7 @@ dLUMemInit(fact_t fact, void *work, int_t lwork, int m, int n, int_t annz,
 	nzlumax  = Glu->nzlumax;
 	
 	if ( lwork == -1 ) {
+	    SUPERLU_FREE(Glu->expanders); Glu->expanders = NULL; /* not needed by a size query */
 	    return ( GluIntArray(n) * iword + TempSpace(m, panel_size)
 		    + (nzlmax+nzumax)*iword + (nzlumax+nzumax)*dword + n );
         } else if ( lwork == 0 ) {
@@ -340,8 +345,10 @@ dLUMemInit(fact_t fact, void *work, int_t lwork, int m, int n, int_t annz,
     Glu->nzlumax = nzlumax;
     
     info = dLUWorkInit(m, n, panel_size, iwork, dwork, Glu);
-    if ( info )
+    if ( info ) {
+	SUPERLU_FREE(Glu->expanders); Glu->expanders = NULL;
 	return ( info + dmemory_usage(nzlmax, nzumax, nzlumax, n) + n);
+    }
     
     ++Glu->num_expansions;
     return 0;
